@@ -137,6 +137,11 @@ ServeTags(i) ==
               THEN {"idw_honoured"} ELSE {})
       \cup (IF CopiesTo(p, m) > 0 /\ <<p, m>> \in DOMAIN dwAny /\ h - dwAny[<<p, m>>] = cfg.idwTTL THEN {"idw_expired"} ELSE {})
       \cup (IF CopiesTo(p, m) = 0 /\ ~(ScoreOf(Pre, p) >= GossipThr) /\ m \in DOMAIN putHb /\ h - putHb[m] < cfg.H THEN {"iwant_low_score"} ELSE {})
+      \* ONE RPC with >= 2 IWANT entries asking for m, each at most GossipRetransmission times, together more often
+      \cup (IF Len(ev[i].rpc.iwant) >= 2 /\ ok /\ m \in DOMAIN putHb /\ h - putHb[m] < cfg.H /\ ~DWMay(p, m, h)
+               /\ (\A x \in DOMAIN ev[i].rpc.iwant : Occ(ev[i].rpc.iwant[x], m) <= cfg.retx)
+               /\ Get(reqs, <<p, m>>, 0) < cfg.retx /\ Get(reqs, <<p, m>>, 0) + Occ(ids, m) > cfg.retx /\ CopiesTo(p, m) > 0
+              THEN {"iwant_multi_entry_over"} ELSE {})
       : m \in Rng(ids)}
 
 ----------------------------------------------------------------------------
@@ -195,6 +200,15 @@ AskTags(i) ==
     \cup (IF asked # <<>> /\ MustAsk(i) /\ <<"cappedlen", p>> \in flags THEN {"reset_ihave", "reset_ihave_len"} ELSE {})
     \cup (IF asked # <<>> /\ MustAsk(i) /\ <<"cappedmsgs", p>> \in flags THEN {"reset_ihave", "reset_ihave_msgs"} ELSE {})
     \cup (IF asked = <<>> /\ ~(ScoreOf(Pre, p) >= GossipThr) /\ unseen # {} THEN {"ihave_low_score"} ELSE {})
+    \* ONE RPC with >= 2 IHAVE entries, each within MaxIHaveLength, whose unseen ids together exceed it: the answer is cut
+    \cup (IF asked # <<>> /\ Len(ev[i].rpc.ihave) >= 2 /\ Cardinality(unseen) > cfg.maxIHaveLen /\ Len(asked) < Cardinality(unseen)
+             /\ (\A x \in DOMAIN ev[i].rpc.ihave : Len(ev[i].rpc.ihave[x].ids) <= cfg.maxIHaveLen)
+            THEN {"ihave_multi_entry_over"} ELSE {})
+    \cup (IF asked # <<>> /\ \E x, y \in DOMAIN ev[i].rpc.ihave : x # y /\ ev[i].rpc.ihave[x].topic = ev[i].rpc.ihave[y].topic
+                                  /\ ev[i].rpc.ihave[x].topic \in DOMAIN Pre.mesh THEN {"ihave_same_topic_entries"} ELSE {})
+    \cup (IF asked # <<>> /\ \E x, y \in DOMAIN ev[i].rpc.ihave : ev[i].rpc.ihave[x].topic # ev[i].rpc.ihave[y].topic
+                                  /\ {ev[i].rpc.ihave[x].topic, ev[i].rpc.ihave[y].topic} \subseteq DOMAIN Pre.mesh
+                                  /\ Len(asked) < Cardinality(unseen) THEN {"ihave_two_topics_over"} ELSE {})
 
 ----------------------------------------------------------------------------
 \* P_C17_IDontWantIn: IDONTWANTs received in this step and the router's table after every step
@@ -245,6 +259,12 @@ IDWInTags(i) ==
              /\ \E m \in Rng(flat) \ FirstK(flat, cfg.maxIDWLen) : Get(UnwOf(Pre, p), m, 0) < cfg.idwTTL /\ Get(UnwOf(Post, p), m, 0) < cfg.idwTTL
             THEN {"cap_idw_len"} ELSE {})
     \cup (IF NewEff(p) # {} /\ <<"cappedidw", p>> \in flags THEN {"reset_idw"} ELSE {})
+    \* ONE RPC with >= 2 IDONTWANT entries, each within MaxIDontWantLength, together beyond it, and honouring an id past the
+    \* bound would have been visible in the table
+    \cup (IF NewEff(p) # {} /\ Len(ev[i].rpc.idontwant) >= 2 /\ Len(flat) > cfg.maxIDWLen
+             /\ (\A x \in DOMAIN ev[i].rpc.idontwant : Len(ev[i].rpc.idontwant[x]) <= cfg.maxIDWLen)
+             /\ \E m \in Rng(flat) \ FirstK(flat, cfg.maxIDWLen) : Get(UnwOf(Pre, p), m, 0) < cfg.idwTTL /\ Get(UnwOf(Post, p), m, 0) < cfg.idwTTL
+            THEN {"idw_multi_entry_over"} ELSE {})
 ExpiryTags ==
     IF IsHb /\ \E p \in DOMAIN Pre.unwanted : \E k \in DOMAIN Pre.unwanted[p] :
                   Pre.unwanted[p][k] = 1 /\ (p \notin DOMAIN Post.unwanted \/ k \notin DOMAIN Post.unwanted[p])
